@@ -11,7 +11,9 @@ use crate::tk::{self, Pay};
 use crate::util::*;
 use std::ffi::c_void;
 use std::mem::ManuallyDrop;
-use triomphe::{Arc, HeaderSlice, HeaderSliceWithLengthProtected, HeaderWithLength, ThinArc, UniqueArc};
+use triomphe::{
+    Arc, HeaderSlice, HeaderSliceWithLengthProtected, HeaderWithLength, ThinArc, UniqueArc,
+};
 
 #[cfg(feature = "full")]
 use arc_swap::ArcSwapAny;
@@ -56,14 +58,21 @@ pub struct View2 {
     pub counts: Vec<(&'static str, usize)>,
 }
 
-fn read_hs<A: Pay, B: Pay>(x: &HS<A, B>, via: &str) -> R<(u32, u64, usize, usize, Vec<(u32, u64)>, usize)> {
+fn read_hs<A: Pay, B: Pay>(
+    x: &HS<A, B>,
+    via: &str,
+) -> R<(u32, u64, usize, usize, Vec<(u32, u64)>, usize)> {
     if let Err(e) = x.header.header.check() {
         return viol("C01", "live", format!("header read through {}: {}", via, e));
     }
     let mut v = Vec::with_capacity(x.slice.len());
     for (k, e) in x.slice.iter().enumerate() {
         if let Err(m) = e.check() {
-            return viol("C01,C10", "live", format!("element {} read through {}: {}", k, via, m));
+            return viol(
+                "C01,C10",
+                "live",
+                format!("element {} read through {}: {}", k, via, m),
+            );
         }
         v.push((e.id(), e.tag()));
     }
@@ -104,7 +113,8 @@ pub fn view2<A: Pay, B: Pay>(h: &H2<A, B>) -> R<View2> {
             (hid, htag, haddr, rec_len, elems, eaddr) = r;
             heap = Some(t.heap_ptr() as usize);
             ensure!(
-                t.ptr() as usize == t.heap_ptr() as usize && t.as_ptr() as usize == t.heap_ptr() as usize,
+                t.ptr() as usize == t.heap_ptr() as usize
+                    && t.as_ptr() as usize == t.heap_ptr() as usize,
                 "C11",
                 "ptr",
                 "ThinArc ptr/as_ptr/heap_ptr disagree"
@@ -112,7 +122,12 @@ pub fn view2<A: Pay, B: Pay>(h: &H2<A, B>) -> R<View2> {
             counts.push(("ThinArc::strong_count", ThinArc::strong_count(t)));
             counts.push(("ThinArc::with_arc", t.with_arc(|f| Arc::count(f))));
             let fh = t.with_arc(|f| f.heap_ptr() as usize);
-            ensure!(Some(fh) == heap, "C10,C11", "thin", "fat Arc lent by with_arc has another heap_ptr");
+            ensure!(
+                Some(fh) == heap,
+                "C10,C11",
+                "thin",
+                "fat Arc lent by with_arc has another heap_ptr"
+            );
         }
         H2::Fat(f) => {
             (hid, htag, haddr, rec_len, elems, eaddr) = read_hs(&**f, "fat")?;
@@ -127,7 +142,11 @@ pub fn view2<A: Pay, B: Pay>(h: &H2<A, B>) -> R<View2> {
             let mut v = Vec::new();
             for e in p.slice() {
                 if let Err(m) = e.check() {
-                    return viol("C01,C10", "live", format!("element read through prot: {}", m));
+                    return viol(
+                        "C01,C10",
+                        "live",
+                        format!("element read through prot: {}", m),
+                    );
                 }
                 v.push((e.id(), e.tag()));
             }
@@ -136,7 +155,14 @@ pub fn view2<A: Pay, B: Pay>(h: &H2<A, B>) -> R<View2> {
             haddr = p.header() as *const A as usize;
             rec_len = p.length();
             eaddr = p.slice().as_ptr() as usize;
-            ensure!(rec_len == v.len(), "C10", "thin", "protected Arc: recorded length {} but slice length {}", rec_len, v.len());
+            ensure!(
+                rec_len == v.len(),
+                "C10",
+                "thin",
+                "protected Arc: recorded length {} but slice length {}",
+                rec_len,
+                v.len()
+            );
             elems = v;
             heap = Some(p.heap_ptr() as usize);
             counts.push(("prot:Arc::count", Arc::count(p)));
@@ -192,7 +218,10 @@ pub fn dup2<A: Pay, B: Pay>(src: &H2<A, B>, r: usize) -> Option<(H2<A, B>, &'sta
         }
         H2::Uniq(_) => return None,
         #[cfg(feature = "full")]
-        H2::Swap(c) => (H2::Thin(shadow::untracked(|| c.load_full())), "tswap.load_full"),
+        H2::Swap(c) => (
+            H2::Thin(shadow::untracked(|| c.load_full())),
+            "tswap.load_full",
+        ),
     })
 }
 
@@ -205,7 +234,10 @@ pub fn conv2<A: Pay, B: Pay>(h: H2<A, B>, r: usize) -> (H2<A, B>, &'static str) 
             _ => {
                 #[cfg(feature = "full")]
                 {
-                    (H2::Swap(shadow::untracked(|| ArcSwapAny::new(t))), "thin->swap")
+                    (
+                        H2::Swap(shadow::untracked(|| ArcSwapAny::new(t))),
+                        "thin->swap",
+                    )
                 }
                 #[cfg(not(feature = "full"))]
                 {
@@ -219,7 +251,10 @@ pub fn conv2<A: Pay, B: Pay>(h: H2<A, B>, r: usize) -> (H2<A, B>, &'static str) 
         H2::Uniq(u) => (H2::Fat(u.shareable()), "funiq->fat"),
         #[cfg(feature = "full")]
         H2::Swap(c) => match r % 2 {
-            0 => (H2::Thin(shadow::untracked(|| c.into_inner())), "tswap->thin"),
+            0 => (
+                H2::Thin(shadow::untracked(|| c.into_inner())),
+                "tswap->thin",
+            ),
             _ => {
                 let c = shadow::untracked(|| {
                     let cur = c.load_full();
@@ -310,10 +345,14 @@ impl<'s, A: Pay + Send + Sync, B: Pay + Send + Sync> W<'s, A, B> {
         self.slots.iter().flatten().filter(|s| s.a == a).count()
     }
     fn used(&self) -> Vec<usize> {
-        (0..self.slots.len()).filter(|i| self.slots[*i].is_some()).collect()
+        (0..self.slots.len())
+            .filter(|i| self.slots[*i].is_some())
+            .collect()
     }
     fn free(&mut self) -> Option<usize> {
-        let f: Vec<usize> = (0..self.slots.len()).filter(|i| self.slots[*i].is_none()).collect();
+        let f: Vec<usize> = (0..self.slots.len())
+            .filter(|i| self.slots[*i].is_none())
+            .collect();
         if f.is_empty() {
             None
         } else {
@@ -343,26 +382,41 @@ impl<'s, A: Pay + Send + Sync, B: Pay + Send + Sync> W<'s, A, B> {
         let t0 = self.tag();
         let r = self.rng.below(4);
         shadow::tracked(|| match r {
-            0 => (ThinArc::from_header_and_iter(A::make(ht), mk::<B>(n, t0)), "ThinArc::from_header_and_iter"),
+            0 => (
+                ThinArc::from_header_and_iter(A::make(ht), mk::<B>(n, t0)),
+                "ThinArc::from_header_and_iter",
+            ),
             1 => (
-                Arc::into_thin(Arc::from_header_and_iter(HeaderWithLength::new(A::make(ht), n), mk::<B>(n, t0))),
+                Arc::into_thin(Arc::from_header_and_iter(
+                    HeaderWithLength::new(A::make(ht), n),
+                    mk::<B>(n, t0),
+                )),
                 "Arc::from_header_and_iter+into_thin",
             ),
             2 => {
                 let v: Vec<B> = mk::<B>(n, t0).collect();
                 (
-                    Arc::into_thin(Arc::from_header_and_vec(HeaderWithLength::new(A::make(ht), n), v)),
+                    Arc::into_thin(Arc::from_header_and_vec(
+                        HeaderWithLength::new(A::make(ht), n),
+                        v,
+                    )),
                     "Arc::from_header_and_vec+into_thin",
                 )
             }
             _ => {
                 let mut u: UniqueArc<HeaderSlice<HeaderWithLength<A>, [std::mem::MaybeUninit<B>]>> =
-                    UniqueArc::from_header_and_uninit_slice(HeaderWithLength::new(A::make(ht), n), n);
+                    UniqueArc::from_header_and_uninit_slice(
+                        HeaderWithLength::new(A::make(ht), n),
+                        n,
+                    );
                 for (slot, e) in u.slice.iter_mut().zip(mk::<B>(n, t0)) {
                     slot.write(e);
                 }
                 let u = unsafe { u.assume_init_slice_with_header() };
-                (Arc::into_thin(u.shareable()), "uninit_slice+assume_init+into_thin")
+                (
+                    Arc::into_thin(u.shareable()),
+                    "uninit_slice+assume_init+into_thin",
+                )
             }
         })
     }
@@ -371,7 +425,12 @@ impl<'s, A: Pay + Send + Sync, B: Pay + Send + Sync> W<'s, A, B> {
         let v = view2(&h)?;
         let block = v.heap.unwrap_or(0);
         if shadow::active() && block != 0 {
-            ensure!(shadow::live_layout(block).is_some(), "C01,C11", "live", "heap_ptr of a new thin allocation is not a live block");
+            ensure!(
+                shadow::live_layout(block).is_some(),
+                "C01,C11",
+                "live",
+                "heap_ptr of a new thin allocation is not a live block"
+            );
         }
         self.allocs.push(AllocM {
             hid: v.hid,
@@ -393,15 +452,38 @@ impl<'s, A: Pay + Send + Sync, B: Pay + Send + Sync> W<'s, A, B> {
         let m = &mut self.allocs[a];
         m.live = false;
         if A::HAS_ID {
-            ensure!(tk::state(m.hid) == tk::DEAD, "C01", "live", "thin header id={} not destroyed at last release ({})", m.hid, by);
+            ensure!(
+                tk::state(m.hid) == tk::DEAD,
+                "C01",
+                "live",
+                "thin header id={} not destroyed at last release ({})",
+                m.hid,
+                by
+            );
         }
         for (id, _) in &m.elems {
-            ensure!(tk::state(*id) == tk::DEAD, "C01", "live", "thin element id={} not destroyed at last release ({})", id, by);
+            ensure!(
+                tk::state(*id) == tk::DEAD,
+                "C01",
+                "live",
+                "thin element id={} not destroyed at last release ({})",
+                id,
+                by
+            );
         }
         if shadow::active() && m.block != 0 {
-            ensure!(shadow::live_layout(m.block).is_none(), "C01", "live", "thin block {:#x} not returned at last release ({})", m.block, by);
+            ensure!(
+                shadow::live_layout(m.block).is_none(),
+                "C01",
+                "live",
+                "thin block {:#x} not returned at last release ({})",
+                m.block,
+                by
+            );
         }
-        self.st.counts.bump(&format!("thin.final_release_by.{}", by));
+        self.st
+            .counts
+            .bump(&format!("thin.final_release_by.{}", by));
         Ok(())
     }
 
@@ -423,7 +505,12 @@ impl<'s, A: Pay + Send + Sync, B: Pay + Send + Sync> W<'s, A, B> {
             };
             let owners = self.owners(a);
             let m = &self.allocs[a];
-            ensure!(m.live, "C01", "live", "harness: slot refers to dead model alloc");
+            ensure!(
+                m.live,
+                "C01",
+                "live",
+                "harness: slot refers to dead model alloc"
+            );
             ensure!(
                 v.rec_len == m.elems.len(),
                 "C10",
@@ -461,7 +548,14 @@ impl<'s, A: Pay + Send + Sync, B: Pay + Send + Sync> W<'s, A, B> {
                 m.eaddr
             );
             if let Some(h) = v.heap {
-                ensure!(h == m.block, "C10,C11", "thin", "after {}: {} handle's heap_ptr moved", ctx, kind);
+                ensure!(
+                    h == m.block,
+                    "C10,C11",
+                    "thin",
+                    "after {}: {} handle's heap_ptr moved",
+                    ctx,
+                    kind
+                );
             }
             for (name, c) in &v.counts {
                 if self.light {
@@ -470,7 +564,10 @@ impl<'s, A: Pay + Send + Sync, B: Pay + Send + Sync> W<'s, A, B> {
                     self.st.counts.bump(&format!("count_obs.{}", name));
                 }
                 if *c != owners {
-                    let msg = format!("after {}: {} through a {} handle reports {} but {} owning handles exist", ctx, name, kind, c, owners);
+                    let msg = format!(
+                        "after {}: {} through a {} handle reports {} but {} owning handles exist",
+                        ctx, name, kind, c, owners
+                    );
                     crate::hist::soft_push(&mut self.soft, "C04", "count", msg);
                 }
             }
@@ -487,11 +584,25 @@ impl<'s, A: Pay + Send + Sync, B: Pay + Send + Sync> W<'s, A, B> {
         );
         if !A::HAS_ID {
             let n = self.allocs.iter().filter(|m| m.live).count() as i64;
-            ensure!(tk::z_live() - self.z0 == n, "C01", "live", "after {}: {} zero-sized headers alive, model expects {}", ctx, tk::z_live() - self.z0, n);
+            ensure!(
+                tk::z_live() - self.z0 == n,
+                "C01",
+                "live",
+                "after {}: {} zero-sized headers alive, model expects {}",
+                ctx,
+                tk::z_live() - self.z0,
+                n
+            );
         }
         if shadow::active() {
             for m in self.allocs.iter().filter(|m| m.live && m.block != 0) {
-                ensure!(shadow::live_layout(m.block).is_some(), "C01", "live", "after {}: block of a live thin allocation was returned", ctx);
+                ensure!(
+                    shadow::live_layout(m.block).is_some(),
+                    "C01",
+                    "live",
+                    "after {}: block of a live thin allocation was returned",
+                    ctx
+                );
             }
         }
         let f = tk::take_findings();
@@ -499,8 +610,16 @@ impl<'s, A: Pay + Send + Sync, B: Pay + Send + Sync> W<'s, A, B> {
             return viol("C01", "live", format!("after {}: {}", ctx, f.join("; ")));
         }
         if let Some(x) = shadow::take_findings().first() {
-            let props = if x.kind == "dealloc-layout-mismatch" { "C05,C01" } else { "C01" };
-            return viol(props, "alloc", format!("after {}: allocator monitor: {:?}", ctx, x));
+            let props = if x.kind == "dealloc-layout-mismatch" {
+                "C05,C01"
+            } else {
+                "C01"
+            };
+            return viol(
+                props,
+                "alloc",
+                format!("after {}: allocator monitor: {:?}", ctx, x),
+            );
         }
         Ok(())
     }
@@ -592,9 +711,21 @@ impl<'s, A: Pay + Send + Sync, B: Pay + Send + Sync> W<'s, A, B> {
                         None => false,
                     })
                 });
-                self.trace.push(format!("s{}.with_arc_mut(get_mut) -> {}", i, g));
-                self.st.counts.bump(if g { "uniq.thin.with_arc_mut.get_mut.grant" } else { "uniq.thin.with_arc_mut.get_mut.decline" });
-                ensure!(g == (owners == 1), "C03", "uniq", "get_mut inside ThinArc::with_arc_mut granted={} with {} owners", g, owners);
+                self.trace
+                    .push(format!("s{}.with_arc_mut(get_mut) -> {}", i, g));
+                self.st.counts.bump(if g {
+                    "uniq.thin.with_arc_mut.get_mut.grant"
+                } else {
+                    "uniq.thin.with_arc_mut.get_mut.decline"
+                });
+                ensure!(
+                    g == (owners == 1),
+                    "C03",
+                    "uniq",
+                    "get_mut inside ThinArc::with_arc_mut granted={} with {} owners",
+                    g,
+                    owners
+                );
                 if g {
                     let m = &mut self.allocs[a];
                     m.htag = if A::HAS_ID { newtag } else { 0 };
@@ -607,8 +738,14 @@ impl<'s, A: Pay + Send + Sync, B: Pay + Send + Sync> W<'s, A, B> {
             }
             1 | 2 | 3 => {
                 // replace the Arc by a handle to another allocation (existing or fresh); r==2: then panic
-                let others: Vec<usize> = self.used().into_iter().filter(|j| self.slots[*j].as_ref().unwrap().a != a).collect();
-                let (repl, ra): (Prot<A, B>, Option<usize>) = if !others.is_empty() && self.rng.below(2) == 0 {
+                let others: Vec<usize> = self
+                    .used()
+                    .into_iter()
+                    .filter(|j| self.slots[*j].as_ref().unwrap().a != a)
+                    .collect();
+                let (repl, ra): (Prot<A, B>, Option<usize>) = if !others.is_empty()
+                    && self.rng.below(2) == 0
+                {
                     let j = *self.rng.pick(&others);
                     let oa = self.slots[j].as_ref().unwrap().a;
                     let src = &self.slots[j].as_ref().unwrap().h;
@@ -645,9 +782,24 @@ impl<'s, A: Pay + Send + Sync, B: Pay + Send + Sync> W<'s, A, B> {
                         })
                     })
                 });
-                self.trace.push(format!("s{}.with_arc_mut(replace{}{})", i, if panics { "+panic" } else { "" }, if ra.is_some() { " existing" } else { " fresh" }));
-                self.st.counts.bump(if panics { "thin.with_arc_mut.replace+panic" } else { "thin.with_arc_mut.replace" });
-                ensure!(res.is_err() == panics, "C10,C07", "thin", "with_arc_mut: panic propagation wrong (panicked={})", res.is_err());
+                self.trace.push(format!(
+                    "s{}.with_arc_mut(replace{}{})",
+                    i,
+                    if panics { "+panic" } else { "" },
+                    if ra.is_some() { " existing" } else { " fresh" }
+                ));
+                self.st.counts.bump(if panics {
+                    "thin.with_arc_mut.replace+panic"
+                } else {
+                    "thin.with_arc_mut.replace"
+                });
+                ensure!(
+                    res.is_err() == panics,
+                    "C10,C07",
+                    "thin",
+                    "with_arc_mut: panic propagation wrong (panicked={})",
+                    res.is_err()
+                );
                 ensure!(
                     t.heap_ptr() as usize == repl_heap,
                     "C10",
@@ -673,9 +825,16 @@ impl<'s, A: Pay + Send + Sync, B: Pay + Send + Sync> W<'s, A, B> {
             }
             4 => {
                 // panic only
-                let res = shadow::tracked(|| catch(|| t.with_arc_mut(|_p| -> () { panic!("callback panics") })));
+                let res = shadow::tracked(|| {
+                    catch(|| t.with_arc_mut(|_p| -> () { panic!("callback panics") }))
+                });
                 self.st.counts.bump("thin.with_arc_mut.panic");
-                ensure!(res.is_err(), "C07", "thin", "with_arc_mut swallowed a panic");
+                ensure!(
+                    res.is_err(),
+                    "C07",
+                    "thin",
+                    "with_arc_mut swallowed a panic"
+                );
                 self.slots[i] = Some(slot);
                 self.verify("with_arc_mut(panic)")
             }
@@ -684,7 +843,15 @@ impl<'s, A: Pay + Send + Sync, B: Pay + Send + Sync> W<'s, A, B> {
                 let c1 = t.with_arc(|f| Arc::count(f));
                 let c2 = shadow::tracked(|| t.with_arc_mut(|p| Arc::count(p)));
                 self.st.counts.bump("count_obs.inside-with_arc_mut");
-                ensure!(c1 == owners && c2 == owners, "C04", "count", "count inside with_arc/with_arc_mut = {}/{} with {} owners", c1, c2, owners);
+                ensure!(
+                    c1 == owners && c2 == owners,
+                    "C04",
+                    "count",
+                    "count inside with_arc/with_arc_mut = {}/{} with {} owners",
+                    c1,
+                    c2,
+                    owners
+                );
                 self.slots[i] = Some(slot);
                 self.verify("with_arc_mut(count)")
             }
@@ -709,8 +876,19 @@ impl<'s, A: Pay + Send + Sync, B: Pay + Send + Sync> W<'s, A, B> {
                                 }
                             })
                             .is_some();
-                        self.st.counts.bump(if g { "uniq.fat.get_mut.grant" } else { "uniq.fat.get_mut.decline" });
-                        ensure!(g == sole, "C03", "uniq", "get_mut on the fat Arc granted={} with {} owners", g, owners);
+                        self.st.counts.bump(if g {
+                            "uniq.fat.get_mut.grant"
+                        } else {
+                            "uniq.fat.get_mut.decline"
+                        });
+                        ensure!(
+                            g == sole,
+                            "C03",
+                            "uniq",
+                            "get_mut on the fat Arc granted={} with {} owners",
+                            g,
+                            owners
+                        );
                         if g {
                             let m = &mut self.allocs[a];
                             m.htag = if A::HAS_ID { newtag } else { 0 };
@@ -722,8 +900,19 @@ impl<'s, A: Pay + Send + Sync, B: Pay + Send + Sync> W<'s, A, B> {
                     }
                     1 => {
                         let g = f.is_unique();
-                        self.st.counts.bump(if g { "uniq.fat.is_unique.grant" } else { "uniq.fat.is_unique.decline" });
-                        ensure!(g == sole, "C03", "uniq", "is_unique on the fat Arc = {} with {} owners", g, owners);
+                        self.st.counts.bump(if g {
+                            "uniq.fat.is_unique.grant"
+                        } else {
+                            "uniq.fat.is_unique.decline"
+                        });
+                        ensure!(
+                            g == sole,
+                            "C03",
+                            "uniq",
+                            "is_unique on the fat Arc = {} with {} owners",
+                            g,
+                            owners
+                        );
                         self.slots[i] = Some(slot);
                     }
                     _ => {
@@ -735,14 +924,33 @@ impl<'s, A: Pay + Send + Sync, B: Pay + Send + Sync> W<'s, A, B> {
                         match Arc::try_unique(f) {
                             Ok(u) => {
                                 self.st.counts.bump("uniq.fat.try_unique.grant");
-                                ensure!(sole, "C03,C09", "uniq", "try_unique on the fat Arc granted with {} owners", owners);
+                                ensure!(
+                                    sole,
+                                    "C03,C09",
+                                    "uniq",
+                                    "try_unique on the fat Arc granted with {} owners",
+                                    owners
+                                );
                                 self.slots[i] = Some(Slot { h: H2::Uniq(u), a });
                             }
                             Err(back) => {
                                 self.st.counts.bump("uniq.fat.try_unique.decline");
-                                ensure!(!sole, "C03,C09", "uniq", "try_unique on the fat Arc declined for a sole owner");
-                                ensure!(back.heap_ptr() as usize == heap, "C03,C09", "uniq", "try_unique returned another allocation");
-                                self.slots[i] = Some(Slot { h: H2::Fat(back), a });
+                                ensure!(
+                                    !sole,
+                                    "C03,C09",
+                                    "uniq",
+                                    "try_unique on the fat Arc declined for a sole owner"
+                                );
+                                ensure!(
+                                    back.heap_ptr() as usize == heap,
+                                    "C03,C09",
+                                    "uniq",
+                                    "try_unique returned another allocation"
+                                );
+                                self.slots[i] = Some(Slot {
+                                    h: H2::Fat(back),
+                                    a,
+                                });
                             }
                         }
                     }
@@ -768,12 +976,18 @@ impl<'s, A: Pay + Send + Sync, B: Pay + Send + Sync> W<'s, A, B> {
         use std::hash::{Hash, Hasher};
         let used = self.used();
         let j = *self.rng.pick(&used);
-        let (ai, aj) = (self.slots[i].as_ref().unwrap().a, self.slots[j].as_ref().unwrap().a);
+        let (ai, aj) = (
+            self.slots[i].as_ref().unwrap().a,
+            self.slots[j].as_ref().unwrap().a,
+        );
         let key = |m: &AllocM| (m.htag, m.elems.iter().map(|e| e.1).collect::<Vec<u64>>());
         let (ki, kj) = (key(&self.allocs[ai]), key(&self.allocs[aj]));
         let r = self.rng.below(4);
         let mut done = "thin.compare:none";
-        if let (H2::Thin(x), H2::Thin(y)) = (&self.slots[i].as_ref().unwrap().h, &self.slots[j].as_ref().unwrap().h) {
+        if let (H2::Thin(x), H2::Thin(y)) = (
+            &self.slots[i].as_ref().unwrap().h,
+            &self.slots[j].as_ref().unwrap().h,
+        ) {
             match r {
                 0 | 1 => {
                     let eq = x == y;
@@ -784,15 +998,43 @@ impl<'s, A: Pay + Send + Sync, B: Pay + Send + Sync> W<'s, A, B> {
                     let mut h2 = std::collections::hash_map::DefaultHasher::new();
                     (**x).hash(&mut h2);
                     let dbg = format!("{:?}", x);
-                    ensure!(eq == (ki == kj), "C14", "cmp", "ThinArc == gives {} for values {:?} and {:?}", eq, ki, kj);
-                    ensure!(ord == ki.cmp(&kj) && pord == Some(ord), "C14", "cmp", "ThinArc cmp/partial_cmp = {:?}/{:?} for values {:?} and {:?}", ord, pord, ki, kj);
-                    ensure!(h1.finish() == h2.finish(), "C14", "cmp", "ThinArc hash differs from the hash of the value it holds");
-                    ensure!(dbg == format!("{:?}", &**x), "C14", "cmp", "ThinArc {{:?}} differs from the value's");
+                    ensure!(
+                        eq == (ki == kj),
+                        "C14",
+                        "cmp",
+                        "ThinArc == gives {} for values {:?} and {:?}",
+                        eq,
+                        ki,
+                        kj
+                    );
+                    ensure!(
+                        ord == ki.cmp(&kj) && pord == Some(ord),
+                        "C14",
+                        "cmp",
+                        "ThinArc cmp/partial_cmp = {:?}/{:?} for values {:?} and {:?}",
+                        ord,
+                        pord,
+                        ki,
+                        kj
+                    );
+                    ensure!(
+                        h1.finish() == h2.finish(),
+                        "C14",
+                        "cmp",
+                        "ThinArc hash differs from the hash of the value it holds"
+                    );
+                    ensure!(
+                        dbg == format!("{:?}", &**x),
+                        "C14",
+                        "cmp",
+                        "ThinArc {{:?}} differs from the value's"
+                    );
                     done = "thin.compare:eq+cmp+hash+fmt";
                 }
                 2 => {
                     // a panicking callback inside with_arc must not move the count
-                    let res = catch(|| x.with_arc(|_f| -> () { panic!("with_arc callback panics") }));
+                    let res =
+                        catch(|| x.with_arc(|_f| -> () { panic!("with_arc callback panics") }));
                     ensure!(res.is_err(), "C07", "thin", "with_arc swallowed a panic");
                     done = "thin.with_arc.panic";
                 }
@@ -818,10 +1060,22 @@ impl<'s, A: Pay + Send + Sync, B: Pay + Send + Sync> W<'s, A, B> {
                     done = "thin.compare.panic";
                 }
             }
-        } else if let (H2::Fat(x), H2::Fat(y)) = (&self.slots[i].as_ref().unwrap().h, &self.slots[j].as_ref().unwrap().h) {
+        } else if let (H2::Fat(x), H2::Fat(y)) = (
+            &self.slots[i].as_ref().unwrap().h,
+            &self.slots[j].as_ref().unwrap().h,
+        ) {
             let eq = x == y;
             let ord = x.cmp(y);
-            ensure!(eq == (ki == kj) && ord == ki.cmp(&kj), "C14", "cmp", "fat Arc ==/cmp = {}/{:?} for values {:?} and {:?}", eq, ord, ki, kj);
+            ensure!(
+                eq == (ki == kj) && ord == ki.cmp(&kj),
+                "C14",
+                "cmp",
+                "fat Arc ==/cmp = {}/{:?} for values {:?} and {:?}",
+                eq,
+                ord,
+                ki,
+                kj
+            );
             done = "thin.compare:fat";
         }
         self.st.counts.bump(done);
@@ -853,11 +1107,19 @@ impl<'s, A: Pay + Send + Sync, B: Pay + Send + Sync> W<'s, A, B> {
         let r = self.rng.below(3);
         let keep = self.rng.below(2) == 0;
         let fat: Fat<A, B> = shadow::tracked(|| match r {
-            0 => Arc::from_header_and_iter(HeaderWithLength::new(A::make(ht), wrong), mk::<B>(n, t0)),
-            1 => Arc::from_header_and_vec(HeaderWithLength::new(A::make(ht), wrong), mk::<B>(n, t0).collect()),
+            0 => {
+                Arc::from_header_and_iter(HeaderWithLength::new(A::make(ht), wrong), mk::<B>(n, t0))
+            }
+            1 => Arc::from_header_and_vec(
+                HeaderWithLength::new(A::make(ht), wrong),
+                mk::<B>(n, t0).collect(),
+            ),
             _ => {
                 // built truthfully, then the public length field is changed through get_mut
-                let mut f = Arc::from_header_and_iter(HeaderWithLength::new(A::make(ht), n), mk::<B>(n, t0));
+                let mut f = Arc::from_header_and_iter(
+                    HeaderWithLength::new(A::make(ht), n),
+                    mk::<B>(n, t0),
+                );
                 Arc::get_mut(&mut f).unwrap().header.length = wrong;
                 f
             }
@@ -865,27 +1127,64 @@ impl<'s, A: Pay + Send + Sync, B: Pay + Send + Sync> W<'s, A, B> {
         let block = fat.heap_ptr() as usize;
         let co = if keep { Some(fat.clone()) } else { None };
         let res = shadow::tracked(|| catch(|| Arc::into_thin(fat)));
-        self.trace.push(format!("into_thin(recorded={}, true={}, co-owner={})", wrong as isize, n, keep));
+        self.trace.push(format!(
+            "into_thin(recorded={}, true={}, co-owner={})",
+            wrong as isize, n, keep
+        ));
         self.st.counts.bump("thin.bad_into_thin");
         match res {
             Ok(t) => {
                 std::mem::forget(t);
-                return viol("C10", "thin", format!("into_thin accepted a fat Arc recording length {} for a slice of {}", wrong as isize, n));
+                return viol(
+                    "C10",
+                    "thin",
+                    format!(
+                        "into_thin accepted a fat Arc recording length {} for a slice of {}",
+                        wrong as isize, n
+                    ),
+                );
             }
             Err(_) => {}
         }
         match co {
             Some(c) => {
-                ensure!(Arc::count(&c) == 1, "C10,C04", "thin", "refused into_thin did not release its Arc: co-owner sees count {}", Arc::count(&c));
-                ensure!(tk::live() == live0 + n as i64 + if A::HAS_ID { 1 } else { 0 }, "C10,C01", "thin", "refused into_thin destroyed the contents while a co-owner exists");
+                ensure!(
+                    Arc::count(&c) == 1,
+                    "C10,C04",
+                    "thin",
+                    "refused into_thin did not release its Arc: co-owner sees count {}",
+                    Arc::count(&c)
+                );
+                ensure!(
+                    tk::live() == live0 + n as i64 + if A::HAS_ID { 1 } else { 0 },
+                    "C10,C01",
+                    "thin",
+                    "refused into_thin destroyed the contents while a co-owner exists"
+                );
                 shadow::tracked(|| drop(c));
             }
             None => {}
         }
-        ensure!(tk::live() == live0, "C10,C01", "thin", "after a refused into_thin {} tracked values were not destroyed", tk::live() - live0);
-        ensure!(tk::z_live() == z0, "C10,C01", "thin", "after a refused into_thin the zero-sized header was not destroyed");
+        ensure!(
+            tk::live() == live0,
+            "C10,C01",
+            "thin",
+            "after a refused into_thin {} tracked values were not destroyed",
+            tk::live() - live0
+        );
+        ensure!(
+            tk::z_live() == z0,
+            "C10,C01",
+            "thin",
+            "after a refused into_thin the zero-sized header was not destroyed"
+        );
         if shadow::active() {
-            ensure!(shadow::live_layout(block).is_none(), "C10,C01", "thin", "after a refused into_thin the block was not returned");
+            ensure!(
+                shadow::live_layout(block).is_none(),
+                "C10,C01",
+                "thin",
+                "after a refused into_thin the block was not returned"
+            );
         }
         self.verify("bad-into_thin")
     }
@@ -908,20 +1207,42 @@ impl<'s, A: Pay + Send + Sync, B: Pay + Send + Sync> W<'s, A, B> {
             self.last_a = a;
             self.verify("final-drop")?;
         }
-        ensure!(tk::live() == 0, "C01", "live", "{} tracked values alive at quiescence", tk::live());
+        ensure!(
+            tk::live() == 0,
+            "C01",
+            "live",
+            "{} tracked values alive at quiescence",
+            tk::live()
+        );
         if shadow::active() {
             shadow::flush_quarantine();
             if let Some(x) = shadow::take_findings().first() {
-                return viol("C01", "alloc", format!("at quiescence: allocator monitor: {:?}", x));
+                return viol(
+                    "C01",
+                    "alloc",
+                    format!("at quiescence: allocator monitor: {:?}", x),
+                );
             }
             let lb = shadow::live_blocks();
-            ensure!(lb.is_empty(), "C01", "live", "{} blocks never returned: {:x?}", lb.len(), &lb[..lb.len().min(4)]);
+            ensure!(
+                lb.is_empty(),
+                "C01",
+                "live",
+                "{} blocks never returned: {:x?}",
+                lb.len(),
+                &lb[..lb.len().min(4)]
+            );
         }
         Ok(())
     }
 }
 
-pub fn run_one<A: Pay + Send + Sync, B: Pay + Send + Sync>(seed: u64, nops: usize, light: bool, st: &mut Stats) -> Result<(), (Vec<Viol>, Vec<String>)> {
+pub fn run_one<A: Pay + Send + Sync, B: Pay + Send + Sync>(
+    seed: u64,
+    nops: usize,
+    light: bool,
+    st: &mut Stats,
+) -> Result<(), (Vec<Viol>, Vec<String>)> {
     let id0 = tk::next_id();
     shadow::reset();
     let _ = tk::take_findings();
